@@ -6,5 +6,6 @@ CONSTANTS
 INVARIANTS
   P_C11_Partition
   P_C11_TryIntoExact
+  P_C11_Groups
   Emit
 CHECK_DEADLOCK FALSE
